@@ -624,3 +624,136 @@ def _replay_noci(o, what):
         o["witness"] = dict(o.get("witness") or {}, native=dict(norb=n, nelec=(a, b), nchol=g, ndets=d, max_abs_deviation=dev))
     except Exception as e:   # noqa
         o["witness"] = dict(o.get("witness") or {}, native_error=repr(e)[:300])
+
+
+class _Stop(Exception):
+    pass
+
+
+def fock_allsizes(kind="uhf"):
+    """C18.opt.fock.allsizes.<kind> (PROOF, all norb, electron numbers, nchol): the matrices handed to the eigen-solver in the first SCF iteration of the REAL
+    optimize() are the Hartree-Fock Fock operators of the trial density rho_s = C_s C_s^T (real orbitals):
+        uhf: F_s = h1_s + J[rho_up + rho_dn] - K[rho_s];   rhf: F = h1 + J[rho] - K[rho]/2, rho = 2 C C^T;   J[r] = sum_g tr(L_g r) L_g, K[r] = sum_g L_g r L_g
+    so a converged solution (eigenvectors of its own Fock matrix) is a fixed point of the update."""
+    t0 = time.time()
+    H.setup_repo()
+    import jax
+    import jax.numpy as jnp
+    from ad_afqmc import wavefunctions as wf
+    name = f"C18.opt.fock.allsizes.{kind}"
+    fns = [f"{WF}.{kind}.optimize"]
+    results = []
+    for sizes in (dict(n=5, a=2, b=3, g=7), dict(n=7, a=3, b=2, g=5)):
+        n, a, b, g = (sizes[k] for k in "nabg")
+        T.SYMMETRIC.update({"h1_up": (0, 1), "h1_dn": (0, 1), "h1": (0, 1), "L": (1, 2)})
+        T.REAL.update({"Cu", "Cd", "C", "L", "h1_up", "h1_dn", "h1"})
+        L = T.atom("L", ["g", "n", "n"], composite=[[0], [1, 2]])
+        if kind == "uhf":
+            trial = wf.uhf(n, (a, b))
+            wave = dict(mo_coeff=[jnp.zeros((n, a)), jnp.zeros((n, b))])
+            h1 = T.Stack([T.atom("h1_up", ["n", "n"]), T.atom("h1_dn", ["n", "n"])])
+            Cs = [T.atom("Cu", ["n", "a"]), T.atom("Cd", ["n", "b"])]
+            args = [L, h1] + Cs
+            nexp = 2
+        else:
+            trial = wf.rhf(n, (a, a))
+            wave = dict(mo_coeff=jnp.zeros((n, a)))
+            ha = T.atom("h1", ["n", "n"])
+            h1 = T.Stack([ha, ha])
+            Cs = [T.atom("C", ["n", "a"])]
+            args = [L, h1] + Cs
+            nexp = 1
+        ham = dict(chol=jnp.zeros((g, n * n)), h1=jnp.zeros((2, n, n)))
+        try:
+            closed = jax.make_jaxpr(lambda hm, wv: trial.optimize(hm, wv))(ham, wave)
+        except Exception as e:   # noqa
+            return [ob(name, REFUTED, kind="proof", backend="jax-trace", functions=fns, wall=time.time() - t0, replayed=True, witness_class="raises",
+                       detail=f"tracing at {sizes} raises {type(e).__name__}: {str(e)[:200]}", witness=dict(error=repr(e)[:300]))]
+        caps = []
+
+        def h_eigh(it, e, ins):
+            caps.append(ins[0])
+            if len(caps) == nexp:
+                raise _Stop()
+            shp = e.outvars
+            # the first solver's results are not used by the second Fock matrix: hand back opaque placeholders
+            return [T.atom(f"eig{len(caps)}_{k}", ["n"] * len(v.aval.shape)) for k, v in enumerate(shp)]
+
+        def h_trace(it, e, ins):
+            x = ins[0]
+            if not isinstance(x, T.TT) or len(e.outvars) != 1 or len(e.outvars[0].aval.shape) != len(x.axes) - 2:
+                return None
+            return [T.trace(x, len(x.axes) - 2, len(x.axes) - 1)]
+        it = T.Interp(sizes, intercept={"trace": h_trace}, prim_hook={"eigh": h_eigh})
+        try:
+            it.run(closed.jaxpr, closed.consts, args)
+            return [ob(name, UNDECIDED, kind="proof", backend="tensor-normal-form", detail="the eigen-solver was not reached", functions=fns)]
+        except _Stop:
+            pass
+        except Unsupported as e:
+            return [ob(name, UNDECIDED, kind="proof", backend="tensor-normal-form", detail=f"Unsupported: {e}", functions=fns, wall=time.time() - t0)]
+        if kind == "uhf":
+            rho = [T.ein("pi,qi->pq", Cs[s], Cs[s]) for s in range(2)]
+            rt = T.add(rho[0], rho[1])
+            J = T.ein("g,gpq->pq", T.ein("gij,ij->g", L, rt), L)
+            want = [T.add(T.add(h1[s], J), T.ein("gpi,ij,gjq->pq", L, rho[s], L), -1) for s in range(2)]
+        else:
+            rho = T.scale(T.ein("pi,qi->pq", Cs[0], Cs[0]), 2)
+            J = T.ein("g,gpq->pq", T.ein("gij,ij->g", L, rho), L)
+            want = [T.add(T.add(h1[0], J), T.scale(T.ein("gpi,ij,gjq->pq", L, rho, L), Fraction(1, 2)), -1)]
+        results.append((caps, want, dict(it.seen)))
+    (c1, w1, s1), (c2, w2, s2) = results
+    out = []
+    uniform = all(T.describe(x) == T.describe(y) for x, y in zip(c1, c2)) and s1 == s2
+    out.append(ob(name + ".uniform", DISCHARGED if uniform else UNDECIDED, kind="proof", backend="tensor-normal-form", functions=fns, wall=time.time() - t0,
+                  detail=f"same traced program and normal forms at two size sets; primitives {s1}"))
+    for s_, (got, want) in enumerate(zip(c1, w1)):
+        # jnp.linalg.eigh symmetrises its input: compare the symmetrised spec as well (the Fock matrix is symmetric for symmetric h1, L and rho)
+        ok = T.equal(got, want) or T.equal(got, T.scale(T.add(want, T.transpose(want, [1, 0])), Fraction(1, 2)))
+        nm = name + (f".{'up' if s_ == 0 else 'dn'}" if kind == "uhf" else "")
+        o = ob(nm, DISCHARGED if ok else REFUTED, kind="proof", backend="tensor-normal-form", functions=fns, wall=time.time() - t0,
+               detail=(f"operand of the eigen-solver == h1 + J - K of the trial density: {len(T.canonical(got)[1])} canonical terms, all sizes, all values") if ok else
+                      f"operand {str(T.describe(got))[:500]} vs Fock operator {str(T.describe(want))[:500]}",
+               witness=None if ok else dict(got=str(T.describe(got))[:700], want=str(T.describe(want))[:700]), witness_class="" if ok else "normal-form")
+        if not ok:
+            _replay_fock(o, kind)
+        out.append(o)
+    return out
+
+
+def _replay_fock(o, kind):
+    """native replay: a converged Hartree-Fock solution (plain numpy SCF) must be left unchanged by one optimize() iteration"""
+    try:
+        import jax.numpy as jnp
+        from ad_afqmc import wavefunctions as wf
+        rng = np.random.default_rng(21)
+        n, g = 4, 3
+        nel = (2, 1) if kind == "uhf" else (2, 2)
+        h = rng.normal(size=(n, n)); h = (h + h.T) / 2
+        L = 0.4 * rng.normal(size=(g, n, n)); L = (L + L.transpose(0, 2, 1)) / 2
+
+        def fock(rs):
+            rt = rs[0] + rs[1]
+            J = np.einsum("g,gpq->pq", np.einsum("gij,ij->g", L, rt), L)
+            return [h + J - np.einsum("gpi,ij,gjq->pq", L, rs[s], L) for s in range(2)]
+        C = [np.eye(n)[:, :nel[0]], np.eye(n)[:, :nel[1]]]
+        for _ in range(400):
+            rs = [C[s] @ C[s].T for s in range(2)]
+            F = fock(rs)
+            if kind == "rhf":
+                F = [(F[0] + F[1]) / 2] * 2
+            Cn = [np.linalg.eigh(F[s])[1][:, :nel[s]] for s in range(2)]
+            if max(np.abs(Cn[s] @ Cn[s].T - rs[s]).max() for s in range(2)) < 1e-13:
+                C = Cn
+                break
+            C = Cn
+        trial = (wf.uhf if kind == "uhf" else wf.rhf)(n, nel, n_opt_iter=1)
+        wave = dict(mo_coeff=[jnp.asarray(C[0]), jnp.asarray(C[1])] if kind == "uhf" else jnp.asarray(C[0]))
+        ham = dict(h1=jnp.asarray(np.array([h, h])), chol=jnp.asarray(L.reshape(g, -1)))
+        new = trial.optimize(ham, wave)["mo_coeff"]
+        new = [np.asarray(new[0]), np.asarray(new[1])] if kind == "uhf" else [np.asarray(new)] * 2
+        dev = float(max(np.abs(new[s] @ new[s].T - C[s] @ C[s].T).max() for s in range(2)))
+        o["replayed"] = bool(dev > 1e-8)
+        o["witness"] = dict(o.get("witness") or {}, native=dict(norb=n, nelec=nel, projector_change_of_a_converged_solution=dev))
+    except Exception as e:   # noqa
+        o["witness"] = dict(o.get("witness") or {}, native_error=repr(e)[:300])
